@@ -11,11 +11,14 @@
    - a dimension of IdentityMatrix / ZeroMatrix is a non-negative Integer or a Symbol ([dim]);
      a MatrixSymbol has no known size (size() returns null RCPs: [None]);
    - std::vector accesses are checked ([ErrOOB]; the library is built with
-     -D_GLIBCXX_ASSERTIONS and aborts on the same access); a dereferenced null RCP is
-     [ErrExn EXN_NULL] (SIGSEGV in the library); exceptions are [ErrExn];
+     -D_GLIBCXX_ASSERTIONS and aborts on the same access); exceptions are [ErrExn];
    - SYMENGINE_ASSERT (is_canonical in the constructors) is compiled out in the release build, so
      results are built exactly as the C++ builds them (make_rcp), canonical or not;
-   - branches that look wrong are transcribed as they are (see MatGuards in MatSpec.v). *)
+   - branches that look wrong are transcribed as they are (the guards naming the defect classes
+     are in MatSpec.v).
+   The model follows the library after the repairs 2bc9483 (is_toeplitz bounds), 12652ef
+   (check_matching_sizes null column count), 7b2e06b (is_symmetric of a HadamardProduct),
+   e8e9441 (scalar * identity) and 0614fb6 (shape of a product with a ZeroMatrix factor). *)
 From SE Require Export Base.Prelude.
 From Coq Require Export QArith Qcanon.
 From Coq Require Export PeanoNat.
